@@ -25,8 +25,9 @@ ASSUMPTIONS = ["omega range test uses -pi_float <= w <= pi_float (arctan2 may re
 
 TTH_Q = [0.5, 2, 10, 30, 60, 90, 120, 150]
 TTH_T = TTH_Q + [1, 5, 20, 45, 75, 100, 135, 149.5]
-TILT_Q = [0.0, -0.1, 0.1, -0.5, 0.5]
-TILT_T = [0.0, -0.01, 0.01, -0.1, 0.1, -0.3, 0.3, -0.5, 0.5]
+# the last three values are a "refinement" sequence: tilts 2e-5 .. 4e-5 rad apart, called one after the other
+TILT_Q = [0.0, -0.1, 0.1, -0.5, 0.5, 0.10002, 0.10004]
+TILT_T = [0.0, -0.01, 0.01, -0.1, 0.1, -0.3, 0.3, -0.5, 0.5, 0.10002, 0.10004, 1e-6, -3e-5, 1e-3]
 
 
 def cases(tier, seed):
